@@ -21,7 +21,7 @@ MANIFEST = {
             "of -R..R (R=40 quick; 120 all operations + 300 core operations thorough) that the predicates admit exactly one result, that it "
             "brackets the exact quotient and equals the \\div definition, that failed calls had no representable result and that the "
             "mutating twin agrees. The recorder calls every method (plus its mutating twin) on operands from 1 ulp to the 1144-bit / "
-            "2^256*10^18 bounds, both signs, ties and their neighbours, powers of ten/two, exact quotients, overflow edges, aliased "
+            "2^256*10^18 bounds, both signs, ties and their neighbours, powers of ten/two, exact quotients, products of less than three units in the last place with every sign combination, overflow edges, aliased "
             "receivers; codec probes also between the last power of ten and the decoders' bit bound, at the bound and at every digit-count "
             "edge, both signs; every result object of a non-mutating form is updated in place after its value was taken, so that a result "
             "sharing storage with an operand shows as a changed operand; TLC validates each recorded call (result, bound, operands "
